@@ -265,10 +265,7 @@ impl Op {
             Op::AddValidator { sender, validator } => (
                 sender.clone(),
                 REGISTRY.into(),
-                to_json_binary(&basset_sei_validators_registry::msg::ExecuteMsg::AddValidator {
-                    validator: basset_sei_validators_registry::registry::Validator { address: validator.clone() },
-                })
-                .unwrap(),
+                cosmwasm_std::Binary::from(serde_json::json!({"add_validator": {"validator": {"address": validator}}}).to_string().into_bytes()),
                 none,
             ),
             Op::RemoveValidator { sender, validator } => (
@@ -286,15 +283,18 @@ impl Op {
             Op::UpdateParams { sender, epoch, fee, threshold, paused } => (
                 sender.clone(),
                 HUB.into(),
-                to_json_binary(&h::ExecuteMsg::UpdateParams {
-                    epoch_period: *epoch,
-                    unbonding_period: None,
-                    peg_recovery_fee: fee.as_ref().map(|s| dec(s)),
-                    er_threshold: threshold.as_ref().map(|s| dec(s)),
-                    paused: *paused,
-                    reward_denom: None,
-                })
-                .unwrap(),
+                Binary::from(
+                    serde_json::json!({"update_params": {
+                        "epoch_period": epoch,
+                        "unbonding_period": null,
+                        "peg_recovery_fee": fee.as_ref().map(|s| dec(s)),
+                        "er_threshold": threshold.as_ref().map(|s| dec(s)),
+                        "paused": paused,
+                        "reward_denom": null,
+                    }})
+                    .to_string()
+                    .into_bytes(),
+                ),
                 none,
             ),
             Op::Raw { sender, contract, msg, funds } => (
